@@ -1,12 +1,12 @@
 package main
 
 import (
-	"strings"
 	"fmt"
 	"go/ast"
 	"go/token"
 	"go/types"
 	"sort"
+	"strings"
 )
 
 // execBlock executes statements sequentially; after each statement the normal states are merged.
@@ -1047,8 +1047,106 @@ func (fc *FCtx) execDefer(s *ast.DeferStmt, st *State) *Flow {
 		})
 		return single(st)
 	}
+	if len(fc.frames) == 1 && fc.deferInLoop(s) {
+		// Go runs nothing at the defer statement itself (exact); every deferred call runs at function exit,
+		// one per executed iteration. The exit effect is over-approximated: every ghost becomes arbitrary.
+		fc.note("defer inside a loop: no effect inside the loop (exact); at exit all ghost state is havocked (over-approximation of the deferred calls)")
+		fr := fc.frame()
+		fr.deferred = append(fr.deferred, func(es *State) {
+			for _, g := range fc.ghostNames(es) {
+				old := es.ghost[g]
+				n := fc.U.Fresh("gdefer_"+g, old.S)
+				es.ghost[g] = Val{T: n, S: old.S, GoT: old.GoT}
+			}
+		})
+		return single(st)
+	}
+	if len(fc.frames) == 1 && len(s.Call.Args) == 0 {
+		// zero-argument deferred call of a function value / function / method on a plain identifier:
+		// evaluated at every exit (the callee expression is an identifier, so evaluating it late is exact
+		// unless it is reassigned, which makes the function out of subset)
+		ok := false
+		switch f := s.Call.Fun.(type) {
+		case *ast.Ident:
+			ok = !fc.assignedIn(fc.frame().fi, f)
+		case *ast.SelectorExpr:
+			if id, isId := f.X.(*ast.Ident); isId {
+				ok = !fc.assignedIn(fc.frame().fi, id) || fc.info().ObjectOf(id) == nil
+				if _, isPkg := fc.info().ObjectOf(id).(*types.PkgName); isPkg {
+					ok = true
+				}
+			}
+		}
+		if ok {
+			fr := fc.frame()
+			call := s.Call
+			fr.deferred = append(fr.deferred, func(es *State) {
+				fc.evalCall(call, es)
+			})
+			return single(st)
+		}
+	}
 	oos("defer %s", name)
 	return nil
+}
+
+// deferInLoop: is this defer statement lexically inside a for/range of the function body (not inside a
+// nested function literal)?
+func (fc *FCtx) deferInLoop(d *ast.DeferStmt) bool {
+	body := fc.frame().fi.Body()
+	found := false
+	var walk func(n ast.Node, inLoop bool)
+	walk = func(n ast.Node, inLoop bool) {
+		if n == nil || found {
+			return
+		}
+		ast.Inspect(n, func(x ast.Node) bool {
+			if found || x == nil {
+				return false
+			}
+			switch y := x.(type) {
+			case *ast.FuncLit:
+				return false
+			case *ast.ForStmt:
+				if x != n {
+					walk(y.Body, true)
+					return false
+				}
+			case *ast.RangeStmt:
+				if x != n {
+					walk(y.Body, true)
+					return false
+				}
+			case *ast.DeferStmt:
+				if y == d && inLoop {
+					found = true
+				}
+			}
+			return true
+		})
+	}
+	walk(body, false)
+	return found
+}
+
+// assignedIn: is the identifier's object assigned (after its declaration) anywhere in the function?
+func (fc *FCtx) assignedIn(fi *FuncInfo, id *ast.Ident) bool {
+	obj := fc.info().ObjectOf(id)
+	if obj == nil {
+		return true
+	}
+	n := 0
+	ast.Inspect(fi.Body(), func(x ast.Node) bool {
+		if as, ok := x.(*ast.AssignStmt); ok {
+			for _, l := range as.Lhs {
+				if lid, ok := l.(*ast.Ident); ok && fc.info().ObjectOf(lid) == obj {
+					n++
+				}
+			}
+		}
+		return true
+	})
+	return n > 1
 }
 
 func containsRecover(n ast.Node) bool {
